@@ -574,15 +574,41 @@ def batch_order(items):
     return [(c, v) for cc in order for c, v in items if c == cc]
 
 
+_CJSON_CACHE = {}
+
+
+def cjson_tokens(text):
+    """What cJSON_ParseWithLengthOpts(text, len, &end, 0) makes of a raw message, in the token encoding of the daemon model's
+    driver, or None when it returns NULL: computed by the Lean model of the vendored cJSON.c (drv_cjson `parse`, itself tied to
+    the real parser by the Cjson component check), so that lenient texts - trailing bytes, duplicate members, escapes, BOM -
+    reach the daemon model with the semantics the daemon sees."""
+    if text not in _CJSON_CACHE:
+        try:
+            outl = C.run_drv("cjson", "parse %s\n" % C.hexs(text))
+            ans = outl[0].strip() if outl else "none"
+        except Exception:
+            ans = None
+        if ans is None:
+            # driver unavailable: strict reader (only exact JSON is then generated correctly)
+            try:
+                ans = " ".join(jtokens(json.loads(text.decode("utf-8", "surrogateescape"), object_pairs_hook=lambda ps: ("obj", ps))))
+            except Exception:
+                ans = "none"
+        _CJSON_CACHE[text] = None if (ans == "none" or ans.startswith("oob")) else ans.split()
+    return _CJSON_CACHE[text]
+
+
 def parse_with_cjson_semantics(text):
-    """Raw text messages: what cJSON makes of them.  Only used for texts our generator marks as raw;
-    returns None (unparsable) unless python's parser accepts the text AND it has no trailing garbage
-    issues we cannot judge — generators only use raw bytes for clearly invalid texts or exact JSON."""
-    try:
-        v = json.loads(text.decode("utf-8", "surrogateescape"), object_pairs_hook=lambda ps: ("obj", ps))
-    except Exception:
-        return None
-    return jtokens(v)
+    """Raw text messages: what cJSON makes of them (see cjson_tokens)."""
+    return cjson_tokens(text)
+
+
+def canon_request_text(b):
+    """raw inbound text -> canonical value as the daemon's parser sees it; raises ValueError when the parser refuses it"""
+    toks = cjson_tokens(b)
+    if toks is None:
+        raise ValueError("refused by the parser")
+    return parse_tokens(toks)[0]
 
 
 def run_model(lines):
